@@ -445,6 +445,13 @@ def run(ctx, chk):
     sub = Sub(chk, "C07-e", lambda r: r == "C10-a/per-await-budget" or r == "C10-a/await-bounded",
               instance_filter=lambda i: "into_stream_with_retry" in str(i))
     rules_c10.run(ctx, sub)
+    # ... and an attempt the terminal answered completely is final: the wrapper's failure bookkeeping is per attempt (a flag
+    # that survives from a failed attempt makes the good retry look failed - the Reservation is sent again, the terminal
+    # books a second pre-authorisation for the one token) - the C09-a/b clauses of the retry wrapper
+    import rules_c09
+    sub9 = Sub(chk, "C07-e", lambda r: r in ("C09-a/reset-on-failure", "C09-b/keep-on-success"))
+    rules_c09.retry(sub9, ctx.crate("zvt_feig_terminal"))
+    chk.floor("retry-wrapper obligations (shared with C09-a/b)", sub9.count, 2)
     limit_source(ctx, chk)
     # a token is opened only by a reservation that succeeded: the abort arms of begin_transaction never end in Ok (C20)
     import rules_c20
